@@ -134,8 +134,10 @@ def run_table(rec: Rec, kind, cycles, table, seed, steps, pool=None, seqs=None, 
     continuation of that live simulation (whose table the caller has re-tuned to `table`)."""
     if mc is None:
         mc = make_driver(kind, seed, cycles)
-        for t in table:
-            mc.add_move(ProbeMove(), ProbeCriteria(), name=t["name"], interval=t["interval"], probability=t["weight"], minimum_count=t["min"])
+        for k_, t in enumerate(table):
+            # the same numbers as Python numbers or as numpy scalars (a table read from an array)
+            npy = (seed + k_) % 3 == 0
+            mc.add_move(ProbeMove(), ProbeCriteria(), name=t["name"], interval=np.int64(t["interval"]) if npy else t["interval"], probability=np.float64(t["weight"]) if npy else t["weight"], minimum_count=np.int64(t["min"]) if npy else t["min"])
         s_expected = 0
     else:
         s_expected = int(mc.step_count)
